@@ -56,6 +56,9 @@ type knownFinding struct {
 }
 
 func loadKnown() []knownFinding {
+	if os.Getenv("VERIF_IGNORE_KNOWN") != "" {
+		return nil // used to (re)generate the replay files of recorded findings
+	}
 	b, err := os.ReadFile(filepath.Join(VerifDir, "known_findings.json"))
 	if err != nil {
 		return nil
@@ -390,7 +393,8 @@ func runBatch(h Harness, tier string, seed uint64, runsOverride, budgetS int) in
 		}
 		byClass[c] = append(byClass[c], f)
 	}
-	for ci, c := range classes {
+	reported := 0
+	for _, c := range classes {
 		fl := byClass[c]
 		f := fl[0]
 		if kf := matchKnown(known, h.ID(), f.res); kf != nil {
@@ -398,7 +402,8 @@ func runBatch(h Harness, tier string, seed uint64, runsOverride, budgetS int) in
 			ev.knownFindings = append(ev.knownFindings, fmt.Sprintf("%s/%s x%d", f.res.Rule, f.res.Signature, len(fl)))
 			continue
 		}
-		if ci >= 4 {
+		reported++
+		if reported > 4 {
 			// enough distinct classes reported
 			fmt.Printf("note: further violation class %s (%d runs) not minimised\n", c, len(fl))
 			continue
